@@ -83,6 +83,19 @@ type worker struct {
 type Run struct {
 	mu      sync.Mutex
 	workers map[int]*worker
+	// goroutines begun one after the other wait here and are released
+	// together at the first End: their first calls overlap
+	gate chan struct{}
+}
+
+// Release lets the waiting goroutines go.
+func (r *Run) Release() {
+	r.mu.Lock()
+	if r.gate != nil {
+		close(r.gate)
+		r.gate = nil
+	}
+	r.mu.Unlock()
 }
 
 // NewRun creates an empty run.
@@ -97,17 +110,24 @@ func safeOp(op string, e, other error) (res string, p string) {
 	return hash(Ops[op](e, other)), ""
 }
 
-// Begin starts goroutine g repeating op on e until End(g).
-func (r *Run) Begin(g int, op string, e, other error) {
+// Begin starts goroutine g repeating op on the shared value until End(g).
+// (e, other) are built by the same steps as (shared, sharedOther), or are the same.
+func (r *Run) Begin(g int, op string, e, other, shared, sharedOther error) {
 	seq, _ := safeOp(op, e, other) // the result of the operation executed alone
 	w := &worker{op: op, done: make(chan struct{})}
 	r.mu.Lock()
 	r.workers[g] = w
+	if r.gate == nil {
+		r.gate = make(chan struct{})
+	}
+	gate := r.gate
 	r.mu.Unlock()
 	started := make(chan struct{})
+	e, other = shared, sharedOther
 	go func() {
 		defer close(w.done)
 		close(started)
+		<-gate
 		for {
 			res, p := safeOp(op, e, other)
 			atomic.AddInt64(&w.iters, 1)
@@ -145,6 +165,7 @@ func (r *Run) End(g int) *Result {
 	if w == nil {
 		return &Result{G: g, Panic: "harness: no such goroutine"}
 	}
+	r.Release()
 	atomic.StoreInt32(&w.stop, 1)
 	<-w.done
 	return &Result{G: g, Op: w.op, Iters: int(w.iters), Bad: int(w.bad), Panic: w.panic, Races: NewRaces()}
@@ -152,7 +173,7 @@ func (r *Run) End(g int) *Result {
 
 // Storm runs n goroutines, each cycling through all operations for the given
 // duration, on the shared value.
-func Storm(n int, d time.Duration, e, other error) *Result {
+func Storm(n int, d time.Duration, e, other, shared, sharedOther error) *Result {
 	var names []string
 	for k := range Ops {
 		names = append(names, k)
@@ -166,10 +187,13 @@ func Storm(n int, d time.Duration, e, other error) *Result {
 	var pmu sync.Mutex
 	pan := ""
 	deadline := time.Now().Add(d)
+	e, other = shared, sharedOther
+	start := make(chan struct{})
 	for i := 0; i < n; i++ {
 		wg.Add(1)
 		go func(i int) {
 			defer wg.Done()
+			<-start
 			for j := i; time.Now().Before(deadline) || j < i+len(names); j++ {
 				k := names[j%len(names)]
 				res, p := safeOp(k, e, other)
@@ -186,6 +210,7 @@ func Storm(n int, d time.Duration, e, other error) *Result {
 			}
 		}(i)
 	}
+	close(start)
 	wg.Wait()
 	return &Result{G: n, Op: "storm", Iters: int(iters), Bad: int(bad), Panic: pan, Races: NewRaces()}
 }
